@@ -16,6 +16,11 @@ func (f *FailoverOf[V]) VerifStop() {
 	if f.Errors != nil {
 		f.Errors.VerifStop()
 	}
+
+	// backend created by NewFailoverOf itself from BackendConfig
+	if sm, ok := f.backend.(*ShardedMapOf[V]); ok {
+		sm.VerifStop()
+	}
 }
 
 // VerifKeyLocks returns the number of per-key build locks currently held.
